@@ -28,10 +28,10 @@ fn main() {
             let mut rng = Rng::new(seed ^ ((prop as u64) << 32));
             out.comment(&format!("property C{:02} tier {} seed {} debug {}", prop, tier, seed, DBG));
             match prop {
-                1 => { hist::gen_c01(&mut out, prop, tier, &mut rng); hist::gen_zst(&mut out, 1, tier, &mut rng); hist::gen_large(&mut out, 1, tier, &mut rng); hist::gen_fuses(&mut out, 1, tier); hist::gen_bombs(&mut out, 1, tier) }
+                1 => { hist::gen_c01(&mut out, prop, tier, &mut rng); hist::gen_zst(&mut out, 1, tier, &mut rng); hist::gen_large(&mut out, 1, tier, &mut rng); hist::gen_fuses(&mut out, 1, tier); hist::gen_bombs(&mut out, 1, tier); hist::gen_big(&mut out, 1, tier, &mut rng) }
                 5 => { hist::gen_c01(&mut out, prop, tier, &mut rng); hist::gen_zst(&mut out, 5, tier, &mut rng); hist::gen_large(&mut out, 5, tier, &mut rng); hist::gen_fuses(&mut out, 5, tier); hist::gen_bombs(&mut out, 5, tier) }
-                6 => { hist::gen_c06(&mut out, tier, &mut rng); hist::gen_zst(&mut out, 6, tier, &mut rng); hist::gen_large(&mut out, 6, tier, &mut rng) }
-                7 => { hist::gen_c07(&mut out, tier, &mut rng); hist::gen_zst(&mut out, 7, tier, &mut rng); hist::gen_large(&mut out, 7, tier, &mut rng) }
+                6 => { hist::gen_c06(&mut out, tier, &mut rng); hist::gen_zst(&mut out, 6, tier, &mut rng); hist::gen_large(&mut out, 6, tier, &mut rng); hist::gen_big(&mut out, 6, tier, &mut rng) }
+                7 => { hist::gen_c07(&mut out, tier, &mut rng); hist::gen_zst(&mut out, 7, tier, &mut rng); hist::gen_large(&mut out, 7, tier, &mut rng); hist::gen_big(&mut out, 7, tier, &mut rng) }
                 2 => geom::gen_c02(&mut out, tier, &mut rng),
                 3 => { geom::gen_c03(&mut out, tier, &mut rng); bigiter::generate_views(&mut out, 3, tier, &mut rng) }
                 4 => { ops::gen_c04(&mut out, tier, &mut rng); iters::generate_views(&mut out, 4, tier, &mut rng) }
@@ -45,7 +45,7 @@ fn main() {
                 8 | 9 => { iters::generate(&mut out, prop, tier, &mut rng); bigiter::generate(&mut out, prop, tier, &mut rng) }
                 10 => iters::generate(&mut out, prop, tier, &mut rng),
                 11 => { hist::gen_c11_iter(&mut out, tier, &mut rng); hist::gen_zst(&mut out, 11, tier, &mut rng); ops::gen_c11_sort(&mut out, tier, &mut rng); hist::gen_bombs(&mut out, 11, tier) }
-                12 => { hist::gen_c12_drain(&mut out, tier, &mut rng); hist::gen_zst(&mut out, 12, tier, &mut rng); hist::gen_large(&mut out, 12, tier, &mut rng) }
+                12 => { hist::gen_c12_drain(&mut out, tier, &mut rng); hist::gen_zst(&mut out, 12, tier, &mut rng); hist::gen_large(&mut out, 12, tier, &mut rng); hist::gen_big(&mut out, 12, tier, &mut rng) }
                 _ => panic!("no generator for property {prop}"),
             }
             println!("cases {}", out.cases);
